@@ -343,6 +343,8 @@ package spec
 //@ define rootJoinLaw(x string) bool = pathClean("/" + "/" + x) == pathClean("/" + x)
 // a clean path has no empty segment; a suffix of a clean path that starts at a segment boundary is clean
 
+// the empty record prints as the empty string
+//@ axiom urlStr("", "", "", "", "") == ""
 // the empty string parses to the empty record
 //@ axiom urlOK("") && urlScheme("") == "" && urlHost("") == "" && urlPath("") == "" && urlQuery("") == "" && urlFrag("") == ""
 // the working directory can be determined (filepath.Abs succeeds); when it cannot, normalizeBase keeps a relative path: stated exception of C11
@@ -1326,3 +1328,58 @@ package spec
 //@   excluding lossless @@ nfKindAll(jv(data), "CommonValidations", "header") && nfKindAll(jv(data), "SimpleSchema", "header") && nfKindAll(jv(data), "HeaderProps", "header")
 //@   ensures  [C19] required-kept @@ result != nil ==> requiredPresent(jv(result), "header")
 //@   excluding required-kept @@ nfKindAll(jv(data), "CommonValidations", "header") && nfKindAll(jv(data), "SimpleSchema", "header") && nfKindAll(jv(data), "HeaderProps", "header")
+
+// ---- Ref codecs (C13) ------------------------------------------------------------------------------
+//@ define isRootV(r Ref) bool = r.referenceURL != nil && !((r.HasFileScheme && r.HasFullFilePath) || (!r.HasFileScheme && r.HasFullURL)) && !r.HasURLPathOnly && r.referenceURL.Fragment == ""
+//@ specfn jIsStr(smt:JV) bool
+
+//@ func (Ref).MarshalJSON
+//@   property C13, C01
+//@   assigns  nothing
+//@   ensures  shape @@ result1 == nil ==> result0 != nil && isObj(jv(result0))
+//@   ensures  empty-never-fails @@ refStringV(r) == "" ==> result1 == nil
+//@   ensures  [C13] single-member @@ result1 == nil ==> (forall k string :: oCnt(jv(result0), k) == (k == "$ref" && (refStringV(r) != "" || isRootV(r)) ? 1 : 0))
+//@   ensures  [C13] member-is-the-string @@ result1 == nil && (refStringV(r) != "" || isRootV(r)) ==> oVal(jv(result0), "$ref") == encOf(refStringV(r))
+
+//@ func (*Ref).fromMap
+//@   property C13, C07
+//@   requires r != nil
+//@   assigns  *r
+//@   ensures  [C13] string-ref-parsed @@ v != nil && has(v, "$ref") && holds(v["$ref"], "string") && urlOK(asString(v["$ref"])) ==>
+//@               result == nil && r.referenceURL != nil && refString(r) == canonStr(asString(v["$ref"]))
+//@               && r.HasFullURL == (urlScheme(asString(v["$ref"])) != "" && urlHost(asString(v["$ref"])) != "")
+//@               && r.HasFragmentOnly == (!r.HasFullURL && urlPath(asString(v["$ref"])) == "" && urlQuery(asString(v["$ref"])) == "" && urlFrag(asString(v["$ref"])) != "")
+//@               && r.HasURLPathOnly == (!r.HasFullURL && urlPath(asString(v["$ref"])) != "")
+//@               && r.HasFileScheme == (urlScheme(asString(v["$ref"])) == "file") && r.HasFullFilePath == hasPrefix(urlPath(asString(v["$ref"])), "/")
+//@   ensures  [C13] invalid-ref-is-error @@ v != nil && has(v, "$ref") && holds(v["$ref"], "string") && !urlOK(asString(v["$ref"])) ==> result != nil
+//@   ensures  [C07] other-shapes-ignored @@ v == nil || !has(v, "$ref") || !holds(v["$ref"], "string") ==> result == nil && *r == old(*r)
+
+// any JSON value decodes into an interface{}
+//@ axiom forall v jsonvalue :: decOKOf("interface{}", v)
+
+//@ func (*Ref).UnmarshalJSON
+//@   property C13, C07
+//@   requires r != nil
+//@   assigns  *r
+//@   ensures  [C13] string-ref-parsed @@ isObj(jv(d)) && oCnt(jv(d), "$ref") > 0 && jIsStr(oVal(jv(d), "$ref")) && urlOK(decOf("string", oVal(jv(d), "$ref"))) ==>
+//@               result == nil && r.referenceURL != nil && refString(r) == canonStr(decOf("string", oVal(jv(d), "$ref")))
+//@               && r.HasFullURL == (urlScheme(decOf("string", oVal(jv(d), "$ref"))) != "" && urlHost(decOf("string", oVal(jv(d), "$ref"))) != "")
+//@               && r.HasFragmentOnly == (!r.HasFullURL && urlPath(decOf("string", oVal(jv(d), "$ref"))) == "" && urlQuery(decOf("string", oVal(jv(d), "$ref"))) == "" && urlFrag(decOf("string", oVal(jv(d), "$ref"))) != "")
+//@               && r.HasURLPathOnly == (!r.HasFullURL && urlPath(decOf("string", oVal(jv(d), "$ref"))) != "")
+//@               && r.HasFileScheme == (urlScheme(decOf("string", oVal(jv(d), "$ref"))) == "file") && r.HasFullFilePath == hasPrefix(urlPath(decOf("string", oVal(jv(d), "$ref"))), "/")
+//@   ensures  [C07] other-shapes-ignored @@ result == nil && (oCnt(jv(d), "$ref") == 0 || !jIsStr(oVal(jv(d), "$ref"))) ==> *r == old(*r)
+//@   ensures  [C07] non-object-is-error @@ !isObj(jv(d)) ==> result != nil
+
+//@ define sameRef(a Ref, b Ref) bool = refStringV(a) == refStringV(b) && (a.referenceURL == nil) == (b.referenceURL == nil) && a.HasFullURL == b.HasFullURL && a.HasURLPathOnly == b.HasURLPathOnly
+//@     && a.HasFragmentOnly == b.HasFragmentOnly && a.HasFileScheme == b.HasFileScheme && a.HasFullFilePath == b.HasFullFilePath
+
+//@ func verifLemmaRefJSON
+//@   property C13
+//@   requires urlOK(s)
+//@   ensures  [C13] json-round-trip @@ result2 == nil ==> sameRef(result0, result1)
+//@   ensures  [C13] decode-of-encoded-never-fails @@ result2 != nil ==> result1.referenceURL == nil
+//@   ensures  [C13] canonical-idempotent @@ canonStr(canonStr(s)) == canonStr(s)
+
+//@ func verifLemmaZeroRefJSON
+//@   property C13
+//@   ensures  [C13] empty-ref-is-empty-object @@ result1 == nil && isObj(jv(result0)) && (forall k string :: oCnt(jv(result0), k) == 0)
